@@ -104,6 +104,14 @@ class ZorgFileCompiler(ZorgFileListener):
         get_datetime = partial(
             dt.datetime.strptime, ctx.DATE().getText(), "%Y-%m-%d"
         )
+        try:
+            get_datetime()
+        except ValueError:
+            # The lexer accepts some dates that do not exist (e.g. 2024-02-31
+            # or 2024-00-00). These are treated like any other word.
+            _LOGGER.debug("Ignoring invalid date", date=ctx.DATE().getText())
+            return
+
         if (
             self._s.in_note
             and self._s.ids_in_note == 1
@@ -169,14 +177,18 @@ class ZorgFileCompiler(ZorgFileListener):
     def enterId(self, ctx: ZorgFileParser.IdContext) -> None:  # noqa: D102
         if self._s.in_note:
             self._s.ids_in_note += 1
-            if self._s.ids_in_note == 1 and zdt.is_short_date_spec(
+            if self._s.ids_in_note == 1 and _is_valid_short_date(
                 short_date := ctx.getText()
             ):
                 self._s.modify_date = zdt.from_short_date_spec(short_date)
             elif (
-                self._s.ids_in_note == 1
-                or (self._s.ids_in_note == 2 and self._s.modify_date)
-            ) and zdt.is_zid(zid := ctx.getText()):
+                (
+                    self._s.ids_in_note == 1
+                    or (self._s.ids_in_note == 2 and self._s.modify_date)
+                )
+                and zdt.is_zid(zid := ctx.getText())
+                and _is_valid_short_date(zid.split("#")[0])
+            ):
                 self._s.zid = zid
                 zorg_id_date = f"20{zid.split('#')[0]}"
                 self._s.note_date = dt.datetime.strptime(
@@ -532,6 +544,21 @@ class ZorgFileCompiler(ZorgFileListener):
             assert self._s.block is not None
             note = Note(body, file_path=self.page.path, **kwargs)
             self._s.block.notes.append(note)
+
+
+def _is_valid_short_date(short_date: str) -> bool:
+    """Returns True iff {short_date} is a YYMMDD date that actually exists.
+
+    The lexer accepts some dates that do not exist (e.g. 240231 or 240100).
+    Those are treated like any other word.
+    """
+    if not zdt.is_short_date_spec(short_date):
+        return False
+    try:
+        zdt.from_short_date_spec(short_date)
+    except ValueError:
+        return False
+    return True
 
 
 def _get_default_tags_map() -> _TagDict:
